@@ -58,6 +58,7 @@ def parseOp : List String → Option Op
   | "submit" :: who :: exp :: initial :: msgs => do
     some (.submit (← nat? who) (← msgs.mapM parseMsg) (← nat? initial) (← bool? exp))
   | ["deposit", pid, who, amt] => do some (.deposit (← nat? pid) (← nat? who) (← nat? amt))
+  | ["depositx", pid, who, fx, other] => do some (.depositX (← nat? pid) (← nat? who) (← nat? fx) (← nat? other))
   | ["cancel", pid, who] => do some (.cancel (← nat? pid) (← nat? who))
   | ["vote", pid, voter, opts] => do some (.vote (← nat? pid) (← nat? voter) (← (opts.splitOn ",").mapM parseOpt))
   | ["delegate", who, _, amt] => do some (.spend (← nat? who) (← nat? amt))
@@ -98,6 +99,11 @@ def stepLine (s : State) (line : String) : State × String :=
     match nat? r, nat? p, nat? q with
     | some r, some p, some q => ((step s (.updateCustom url.toList (some ⟨r, p, q⟩))).1, "ok")
     | _, _, _ => (s, "bad-op")
+  | "tx" :: ws =>
+    -- an op carried by a transaction of the block that the next `endblock` finalizes: the result kind only
+    match parseOp ws with
+    | none => (s, "bad-op")
+    | some op => step s op
   | ws =>
     match parseOp ws with
     | none => (s, "bad-op")
